@@ -165,12 +165,33 @@ def mediaOp (j : Json) : Except String Res := do
       (List.range total).all (fun i => shown.contains (i + 1)) && (lineRunValues plain).all (· ≤ total))
   -- numbers outside 1..N open nothing
   let outsideOk := implSel.all fun (n, p, _) => !(n < 1 || n > total) || !p
+  -- a number typed into the interface starts the program with what that number selects when asked directly
+  let urlAt : Option Nat := (hook.drop 1).findIdx? (· == "%url".toList) |>.map (· + 1)
+  let typedOk := !viaUi || (stepsA.toList.zip implSteps).all fun (d, r) =>
+    let v : Option Nat := match d with
+      | Json.arr p => match p[0]?, p[1]? with
+        | some (Json.str "select"), some n => n.getNat?.toOption
+        | some (Json.str "type"), some (Json.str ds) => (atoiDigits ds).map Int.toNat
+        | _, _ => none
+      | _ => none
+    match v with
+    | none => true
+    | some k =>
+      if k ≥ count then true else
+      let started : Option Str := match r.getObjVal? "argv", r.getObjVal? "stdin" with
+        | .ok (Json.arr a), .ok (Json.str sin) => match urlAt with
+          | some i => match a[i]? with | some (Json.str x) => some x.toList | _ => none
+          | none => some sin.toList
+        | _, _ => none
+      match started with
+      | some l => opens k l
+      | none => (r.getObjVal? "present").toOption != some (Json.bool false) || !(implSel.any fun (n, p, _) => n == k && p)
   -- what the interface drew while opening
   let frames : List Str := (strList j "frames").toOption.getD []
   pure { model := Json.mkObj [("steps", stepsJson), ("bodylinks", jsl bodyLinks), ("sel", modelSel)],
          preds := basePreds ++ [("label_opens_own_target", labelOk), ("numbers_1_to_N_shown", numbersOk),
                                 ("numbers_outside_open_nothing", outsideOk)] ++
-                  (if viaUi then [("frames_safe", frames.all Safe.safe)] else []),
+                  (if viaUi then [("frames_safe", frames.all Safe.safe), ("typed_number_opens_that_number", typedOk)] else []),
          nontrivial := sels.any Option.isSome }
 
 end Ops
